@@ -251,9 +251,16 @@ func (s *Session) CheckStore() []Bad {
 	}
 	// what each marked pair was last scanned under (network up / down)
 	lastDown := map[string]bool{}
+	sawUp, sawDown := map[string]bool{}, map[string]bool{}
 	s.W.mu.Lock()
 	for _, ev := range s.W.Scans {
-		lastDown[fmt.Sprintf("%d|%v", ev.Layer, ev.Scanner)] = ev.Down
+		k := fmt.Sprintf("%d|%v", ev.Layer, ev.Scanner)
+		lastDown[k] = ev.Down
+		if ev.Down {
+			sawDown[k] = true
+		} else {
+			sawUp[k] = true
+		}
 	}
 	s.W.mu.Unlock()
 	layers := map[int]bool{}
@@ -289,6 +296,11 @@ func (s *Session) CheckStore() []Bad {
 			got := s.W.Store.ArtifactNames(LayerDigest(l).String(), k)
 			want := ExpectedArtifacts(k, l, lastDown[fmt.Sprintf("%d|%v", l, k)])
 			if len(got) == 0 && len(want) == 0 {
+				continue
+			}
+			if pk := fmt.Sprintf("%d|%v", l, k); sawUp[pk] && sawDown[pk] && reflect.DeepEqual(got, ExpectedArtifacts(k, l, false)) {
+				// by design (result.Do forgives *net.AddrError): the scanner ran on this layer both with and
+				// without the network (a failed attempt's artifacts stay); the store holds the union
 				continue
 			}
 			if !reflect.DeepEqual(got, want) {
